@@ -23,7 +23,7 @@ PROPS = {
     "C02": {
         "title": "AES-GCM one-shot output equals NIST SP 800-38D for every length, AAD, tag size",
         "variant": "default",
-        "quick": {"cases": 160000},
+        "quick": {"cases": 250000},
         "thorough": {"cases": 6000000, "opts": ["bigmax=1200000"]},
         "rule": "rapidcheck cases over key size x {sse, avx_gen2, avx_gen4, vaes_avx512, legacy, isal_} x {regular, nt} x {enc, dec}; key/IV/AAD/data from a "
                 "seed; data length mixture (0..1100 dense, 4080..4112, 65520..65552, up to bigmax), AAD length mixture, tag 8/12/16, in place or not, "
@@ -35,7 +35,7 @@ PROPS = {
     "C03": {
         "title": "AES-XTS equals IEEE 1619 incl. ciphertext stealing; expanded-key forms agree",
         "variant": "default",
-        "quick": {"cases": 160000},
+        "quick": {"cases": 500000},
         "thorough": {"cases": 5000000, "opts": ["huge=1"]},
         "rule": "rapidcheck cases over key size x {sse, avx, vaes, legacy, isal_} x {enc, dec} x {raw, expanded key}; keys/tweak/data from a seed; len mixture "
                 "(0..15 for the no-op clause with both buffers made inaccessible, 16..640 dense, 1008..1056, 4080..4128, 65536+-17, up to 40000; thorough "
@@ -47,7 +47,7 @@ PROPS = {
     "C04": {
         "title": "AES key expansion equals FIPS-197; AES-CBC equals SP 800-38A, all key sizes",
         "variant": "default",
-        "quick": {"cases": 120000},
+        "quick": {"cases": 800000},
         "thorough": {"cases": 3000000},
         "rule": "rapidcheck cases over {128,192,256} x entry (keyexp {sse, avx, legacy, isal_}, cbc enc {x4, x8, legacy, isal_}, cbc dec {sse, avx, vaes_avx512, "
                 "legacy, isal_}); keys/IV/data from a seed; N blocks in {1..80 dense, 255..257, 81..1200, 4096}; in place / out of place; IV and schedules "
@@ -59,7 +59,7 @@ PROPS = {
     "C07": {
         "title": "AES-GCM streaming (init/update*/finalize) equals one-shot for any segmentation",
         "variant": "default",
-        "quick": {"cases": 120000},
+        "quick": {"cases": 300000},
         "thorough": {"cases": 4000000, "opts": ["bigpiece=300000"]},
         "rule": "rapidcheck cases: C02 inputs plus a composition of len into 1..12 update lengths (0, 1..15, 16, 17..130, multiples of 16, up to bigpiece) so "
                 "that every (carried residue, fill) pair occurs; nt updates only with non-final pieces multiple of 64 and 64-byte aligned buffers. Oracle: output "
@@ -70,7 +70,7 @@ PROPS = {
     "C05": {
         "title": "mh_sha1/mh_sha256 equal the multi-hash definition for any update segmentation",
         "variant": "default",
-        "quick": {"cases": 60000},
+        "quick": {"cases": 400000},
         "thorough": {"cases": 2000000, "opts": ["bigmax=4194304"]},
         "rule": "rapidcheck cases over {mh_sha1, mh_sha256} x {base, sse, avx, avx2, avx512, legacy, isal_}; stream from a seed; total length mixture (0, 1..70, "
                 "1015..1017, 1023..1025, k*1024+{0,+-1,+-8,+-9}, up to bigmax); partition into 1..9 update calls with cut points biased to 1024-byte boundaries "
@@ -83,7 +83,7 @@ PROPS = {
     "C10": {
         "title": "mh_sha1_murmur3_x64_128 returns both digests as if computed separately",
         "variant": "default",
-        "quick": {"cases": 60000},
+        "quick": {"cases": 400000},
         "thorough": {"cases": 2000000, "opts": ["bigmax=4194304"]},
         "rule": "as C05 for the stitched function x {base, sse, avx, avx2, avx512, legacy, isal_} with 64-bit seeds (0, 2^32+-1, 2^63, 2^64-1, random). Oracle: mh_sha1 part "
                 "= the multi-hash reference; murmur part = independent MurmurHash3_x64_128 with h1=h2=seed over the whole stream (reference checked against "
@@ -129,6 +129,21 @@ PROPS = {
                 "before/after; every later valid isal_ call returns 0 and no context handed back for a valid submission carries an error; all digests equal the "
                 "reference. Non-trivial = a rejection while >=1 other job is in flight, followed by >=2 valid calls.",
         "assumptions": COMMON_ASSUME + ["when two rejection reasons apply either code is accepted (the documentation gives no precedence)"],
+    },
+    "C14": {
+        "title": "SAFE_DATA: no key material left in registers or dead stack after AES calls",
+        "variant": "default",
+        "asm": ["common/tramp.asm"],
+        "quick": {"cases": 600000},
+        "thorough": {"cases": 20000000},
+        "rule": "rapidcheck cases over every AES entry point x family (key expansion, GCM pre/precomp/init/update/finalize/one-shot incl. nt, CBC enc/dec, XTS raw and "
+                "expanded; family symbols, legacy and isal_ dispatchers) x length classes (each unrolled exit path) with random keys/IV/tweak. Each call goes through the "
+                "assembly trampoline on a private stack whose 64 KiB below the call are pattern-filled. Oracle: the secret set (16-byte chunks of the raw key, every "
+                "enc/dec round key, H=E_K(0) and H^2..H^48 in both byte orders, every 16-byte entry of the family's precomputed hash-key table, E_K2(tweak); "
+                "low-entropy values excluded) must not occur at any byte offset of zmm0-31 as captured right after the return, nor anywhere in the dead stack the "
+                "callee touched. Non-trivial = every case; distinct = (entry, family, exit-path class).",
+        "assumptions": COMMON_ASSUME + ["general-purpose registers are outside the statement and not judged", "requires AVX-512 on the host to capture zmm16-31/k0-7 "
+                                        "(reported as not covered otherwise)", "partial values (e.g. later tweaks, counter blocks) are not demanded by the statement"],
     },
 }
 
